@@ -51,6 +51,7 @@ type compCase struct {
 	UpTo     int    `json:"up_to_query"`
 	Burst    bool   `json:"concurrent_phase,omitempty"`     // also run the concurrent real-socket rounds
 	Hostile  bool   `json:"hostile_client_phase,omitempty"` // also run the failed-request / slow-upload rounds
+	Age      bool   `json:"age_phase,omitempty"`            // run (only) the connection-age / answer-latency phase
 
 	// for the reader (regenerated from the seed on replay)
 	Comp     *Comp    `json:"composition,omitempty"`
@@ -446,12 +447,13 @@ func main() {
 	})
 	rep = evid.New("C03", "exploration")
 	caselog = evid.OpenCaseLog()
-	rep.SetRule("compositions of the built-in plugins are generated from the seed as configuration data (sequence rule text with jump/goto/fallback sub-sequences over cache, redirect, hosts, black_hole, arbitrary, reject, ttl, ecs, ecs_handler, forward_edns0opt, prefer_ipv4/6, drop_resp and matchers) and built by coremain.NewMosdns; each ends in an echoing upstream (harness terminal plugin or real forward to a loopback echo server) whose scripted outcome (answer of 0..65535 bytes, rcode, none, error) is a function of the question name; each composition receives a generated stream of wire-level client messages (fresh / repeated questions, ID classes, re-cased and special names, all AA TC RD RA Z AD CD x opcode combinations, OPT variants, malformed section counts) via EntryHandler.Handle (UDP/TCP/DoH calling conventions) and via real loopback UDP/TCP/DoH sockets, sequentially and - for every fourth composition - in a concurrent phase (4-8 UDP client sockets firing back-to-back bursts, pipelined queries per TCP connection, concurrent DoH requests; unique question per query, chain outcome keyed by that question) and a hostile-client phase (per round and protocol: 2-5 requests that fail - DoH bodies shorter than announced / broken or cut-off chunked encoding / oversized / wrong media type / bad base64 / cut-off request head, ended by half-close, close or reset, HTTP/2 streams reset mid-upload, TCP frames shorter than their prefix / zero and 12-byte lengths / garbage frames, UDP runts, garbage, oversized and cut-off datagrams - some aborted only while other traffic is in flight; then well-formed queries of slow uploaders (HTTP/1.1 Content-Length or chunked bodies, HTTP/2 DATA frames and TCP frames that arrive in two parts cut at 0, 1, 2, 12, n-1 or a random offset, the second part only after the round's ordinary clients were served) overlapping with 3-6 ordinary concurrent clients; every well-behaved reply is judged against its own query). A case is non-trivial when a verdict was reached for it; distinct = distinct (composition shape, outcome class, transport, truncated?, cache-hit?) tuple.")
+	rep.SetRule("compositions of the built-in plugins are generated from the seed as configuration data (sequence rule text with jump/goto/fallback sub-sequences over cache, redirect, hosts, black_hole, arbitrary, reject, ttl, ecs, ecs_handler, forward_edns0opt, prefer_ipv4/6, drop_resp and matchers) and built by coremain.NewMosdns; each ends in an echoing upstream (harness terminal plugin or real forward to a loopback echo server) whose scripted outcome (answer of 0..65535 bytes, rcode, none, error) is a function of the question name; each composition receives a generated stream of wire-level client messages (fresh / repeated questions, ID classes, re-cased and special names, all AA TC RD RA Z AD CD x opcode combinations, OPT variants, malformed section counts) via EntryHandler.Handle (UDP/TCP/DoH calling conventions) and via real loopback UDP/TCP/DoH sockets, sequentially and - for every fourth composition - in a concurrent phase (4-8 UDP client sockets firing back-to-back bursts, pipelined queries per TCP connection, concurrent DoH requests; unique question per query, chain outcome keyed by that question) and a hostile-client phase (per round and protocol: 2-5 requests that fail - DoH bodies shorter than announced / broken or cut-off chunked encoding / oversized / wrong media type / bad base64 / cut-off request head, ended by half-close, close or reset, HTTP/2 streams reset mid-upload, TCP frames shorter than their prefix / zero and 12-byte lengths / garbage frames, UDP runts, garbage, oversized and cut-off datagrams - some aborted only while other traffic is in flight; then well-formed queries of slow uploaders (HTTP/1.1 Content-Length or chunked bodies, HTTP/2 DATA frames and TCP frames that arrive in two parts cut at 0, 1, 2, 12, n-1 or a random offset, the second part only after the round's ordinary clients were served) overlapping with 3-6 ordinary concurrent clients; every well-behaved reply is judged against its own query); three extra compositions (echo and real-forward terminals) get the connection-age / answer-latency phase: on every server protocol (UDP, TCP, DoT, DoH over HTTP/1.1 keep-alive and over HTTP/2 incl. GET / POST / POST without announced length, DoQ) client scripts - one connection each, all concurrent - send 1-4 well-formed queries after 0 / ~1 / ~2.5 / ~4.5 s (thorough: ~9 s) of silence on the connection (always below the idle timeout) whose plugin chain takes 0 / ~0.5 / ~2.5 / ~4 s (below the query timeout; slow and fast queries overlap on one connection), each judged by the same oracle. A case is non-trivial when a verdict was reached for it; distinct = distinct (composition shape, outcome class, transport, truncated?, cache-hit?) tuple.")
 	rep.Assume("lib/wire parses replies correctly (independent of miekg/dns; unit-tested)")
 	rep.Assume("the recorder's snapshot of qCtx.R() taken when the entry executable returns is the plugins' answer")
 	rep.Assume("loopback sockets neither lose nor duplicate datagrams/segments; 'none other' is judged within a settle window after the handler is known to have returned")
 	rep.Assume("queries whose header counts promise records that are absent (count lies) are not judged")
 	rep.Assume("hostile-client phase: requests that fail are not judged themselves (except that a datagram shorter than a DNS header must not be answered); a body with trailing bytes behind the query is not a well-formed query and its reply is not judged; a TCP query whose connection the server's 2 s first-read timer closed before the handler saw it is delivered again")
+	rep.Assume("connection-age phase: a reply counts as missing only when the handler wrapper saw Handle return a payload for that question and nothing arrived for 10 s afterwards (or the server ended the connection / exchange / stream without it); a query the handler never saw (first-read or idle timer closed the connection) is not judged")
 	rep.Assume("over real UDP sockets the advertised size is kept <= 65000 (an IPv4 datagram cannot carry a 65535-byte payload)")
 
 	if rep.ReplayFile != "" {
@@ -462,7 +464,11 @@ func main() {
 		}
 		cc.Comp, cc.Plan, cc.Replies, cc.Script = nil, nil, nil, nil
 		caselog.Log(cc)
-		runComp(rep.Seed, cc, true)
+		if cc.Age {
+			runAgeComp(rep.Seed, cc, true)
+		} else {
+			runComp(rep.Seed, cc, true)
+		}
 		rep.Finish()
 	}
 
@@ -478,6 +484,18 @@ func main() {
 		workers = 8
 	}
 	start := time.Now()
+	// connection-age / answer-latency phase: a few extra compositions whose client
+	// scripts sleep for seconds; they run beside the worker pool for the whole run
+	var ageWG sync.WaitGroup
+	for k, term := range []string{"echo", "forward-udp", "echo", "forward-tcp", "echo", "echo"}[:rep.Pick(3, 6)] {
+		cc := compCase{CompIdx: nComp + k, Terminal: term, UpTo: -1, Age: true}
+		caselog.Log(map[string]any{"age_phase": cc})
+		ageWG.Add(1)
+		go func() {
+			defer ageWG.Done()
+			runAgeComp(rep.Seed, cc, false)
+		}()
+	}
 	var wg sync.WaitGroup
 	jobs := make(chan compCase)
 	var inflight sync.Map
@@ -508,6 +526,9 @@ func main() {
 	}
 	close(jobs)
 	wg.Wait()
+	rep.Extra("pool_run_s", time.Since(start).Seconds())
+	ageWG.Wait()
+	rep.Extra("age_phase_cells_with_a_judged_reply", ageCellList())
 	poolsan.Sweep()
 	rep.Count("poolsan_gets", poolsan.Gets.Load())
 	rep.Count("poolsan_releases", poolsan.Releases.Load())
@@ -541,7 +562,15 @@ func main() {
 		"deliveries_udp-burst", "deliveries_tcp-pipelined", "deliveries_doh-concurrent",
 		"deliveries_doh-after-abort", "deliveries_tcp-after-abort", "deliveries_udp-after-abort",
 		"hostile_doh_rejections_observed", "hostile_doh_h2_streams_reset", "hostile_doh_slow_uploads_judged",
-		"hostile_tcp_server_close_observed", "hostile_tcp_slow_frames_judged", "hostile_udp_runt_datagrams"} {
+		"hostile_tcp_server_close_observed", "hostile_tcp_slow_frames_judged", "hostile_udp_runt_datagrams",
+		"age_replies_written_2s_or_more_after_connect_udp", "age_replies_written_2s_or_more_after_connect_tcp",
+		"age_replies_written_2s_or_more_after_connect_dot", "age_replies_written_2s_or_more_after_connect_doh-h1",
+		"age_replies_written_2s_or_more_after_connect_doh-h2", "age_replies_written_2s_or_more_after_connect_doq",
+		"age_replies_on_connections_older_than_2s_tcp", "age_replies_on_connections_older_than_2s_dot",
+		"age_replies_on_connections_older_than_2s_doh-h1", "age_replies_on_connections_older_than_2s_doh-h2",
+		"age_replies_on_connections_older_than_2s_doq", "age_replies_after_2s_or_more_in_the_chain_tcp",
+		"age_replies_after_2s_or_more_in_the_chain_dot", "age_replies_after_2s_or_more_in_the_chain_doq",
+		"age_replies_after_2s_or_more_in_the_chain_udp", "age_doh_requests_on_reused_connection"} {
 		if rep.Get(need) == 0 {
 			rep.Inconclusive("monitor counter %s is zero: that part of the property was not exercised", need)
 		}
